@@ -308,13 +308,15 @@ func (h *qnHandler) WithAttrs(attrs []slog.Attr) slog.Handler {
 	}
 	h.log.mu.Lock()
 	defer h.log.mu.Unlock()
+	// one monitor object per Conn (With is called once per connection); several
+	// server conns can share a group id when a duplicated Initial creates a
+	// second, short-lived connection.
 	key := vantage + ":" + gid
-	qc := h.log.conns[key]
-	if qc == nil {
-		qc = newQNConn(vantage, gid)
+	qc := newQNConn(vantage, gid)
+	if h.log.conns[key] == nil {
 		h.log.conns[key] = qc
-		h.log.order = append(h.log.order, qc)
 	}
+	h.log.order = append(h.log.order, qc)
 	return &qnHandler{log: h.log, conn: qc}
 }
 
@@ -509,7 +511,9 @@ func (m *qnMon) process(i int, ev qnEvent) *vs.Violation {
 			return vs.Violf("C25", "packet_processed_twice", "net:processed_twice", "%s conn processed packet %d of space %s twice", c.vantage, ev.pnum, ev.ptype)
 		}
 		c.recvPN[sp][ev.pnum] = true
-		if c.peer != nil && !c.peer.sentPN[sp][ev.pnum] {
+		// (Initial packets can also come from the peer's endpoint itself, e.g. a
+		// stateless CONNECTION_CLOSE(INVALID_TOKEN), which no connection logs.)
+		if sp != 0 && c.peer != nil && !m.anyPeerSent(c, sp, ev.pnum) {
 			return vs.Violf("C25", "received_unsent_packet", "net:received_unsent", "%s conn processed packet %d of space %s which its peer never sent", c.vantage, ev.pnum, ev.ptype)
 		}
 	}
@@ -641,6 +645,18 @@ func (m *qnMon) process(i int, ev qnEvent) *vs.Violation {
 		}
 	}
 	return nil
+}
+
+// anyPeerSent reports whether some connection of the other vantage point with the
+// same group id (a duplicated Initial can create a second server connection)
+// sent packet pn in space sp.
+func (m *qnMon) anyPeerSent(c *qnConn, sp int, pn int64) bool {
+	for _, o := range m.log.order {
+		if o.gid == c.gid && o.vantage != c.vantage && o.sentPN[sp][pn] {
+			return true
+		}
+	}
+	return false
 }
 
 func (m *qnMon) connLimit(c *qnConn) *vs.Violation {
@@ -1251,6 +1267,17 @@ func (r *qnRun) acceptor(conn *Conn, name string) {
 					if !s.IsReadOnly() {
 						s.Reset(0x99)
 					}
+					// the application is finished with this peer-initiated stream
+					r.mu.Lock()
+					vant, t := "client", 0
+					if conn == r.srvConn {
+						vant = "server"
+					}
+					if s.IsReadOnly() {
+						t = 1
+					}
+					r.mon.finished[vant][t]++
+					r.mu.Unlock()
 					s.CloseRead()
 					go func() { s.Close() }()
 					return
@@ -1522,7 +1549,10 @@ func (r *qnRun) check() *vs.Violation {
 				other = "client:" + qc.gid
 			}
 			if oc := r.log.conns[other]; oc != nil {
-				qc.peer, oc.peer = oc, qc
+				qc.peer = oc
+				if oc.peer == nil {
+					oc.peer = qc
+				}
 			}
 			if qc.vantage == "server" {
 				qc.cfg, qc.peerCfg = r.p.srv, r.p.cli
